@@ -365,3 +365,97 @@ benign("C08","buy-checks-reordered",[
 	}
 """),
 ])
+
+# ---- round 2 of independent seeded changes
+from_patch("C01","seed2-sweep-shares-scratch-prover-slice","seeded/C01-sweep-shares-scratch-prover-slice/patch.diff","C01/R5","rewards:credited-key","seed round 2")
+from_patch("C03","seed2-sweep-shares-scratch-prover-slice","seeded/C01-sweep-shares-scratch-prover-slice/patch.diff","C03/R5","iterated-list=file-list","seed round 2 (written against C01)")
+from_patch("C03","seed2-burn-counter-from-cached-provider-record","seeded/C03-burn-counter-from-cached-provider-record/patch.diff","C03/R7","burn-from-fresh-read","seed round 2")
+from_patch("C04","seed2-commission-from-pre-upgrade-price","seeded/C04-commission-from-pre-upgrade-price/patch.diff","C04/R8","cut-from-current-payment:referrer","seed round 2")
+from_patch("C17","seed2-prover-key-canonicalised-only-on-append","seeded/C05-prover-key-canonicalised-only-on-append/patch.diff","C17/R3","contains-key=appended-key","seed round 2 (written against C05)")
+from_patch("C07","seed2-footprint-returned-only-to-live-plan","seeded/C07-footprint-returned-only-to-live-plan/patch.diff","C07/R1","footprint-on-every-removal","seed round 2")
+from_patch("C08","seed2-liveness-as-remaining-blocks","seeded/C08-liveness-as-remaining-blocks/patch.diff","C08/R1","rns.MsgRegister:new-own-or-expired","seed round 2")
+from_patch("C16","seed2-liveness-as-remaining-blocks","seeded/C08-liveness-as-remaining-blocks/patch.diff","C16/R3","rns.MsgRegister:live-name-protected","seed round 2 (written against C08)")
+from_patch("C09","seed2-owner-change-drops-new-owners-bid","seeded/C09-owner-change-drops-new-owners-bid/patch.diff","C09/R6","rns.MsgBuy:changeOwner:bid-deleted-only-after-payout","seed round 2")
+from_patch("C10","seed2-post-owner-from-signer-hash","seeded/C10-post-owner-from-signer-hash/patch.diff","C10/R2","filetree.MsgPostFile:new-owner","seed round 2")
+
+# ---- behaviour-preserving refactors around the rules added after round 2
+benign("C04","cut-helper-after-debit",[
+ ("x/storage/keeper/msg_server_buy_storage.go","""	storageProviderCut := toPay.Amount.ToDec().Mul(spr)
+	spcToken := sdk.NewCoin(toPay.Denom, storageProviderCut.TruncateInt())
+	spcTokens := sdk.NewCoins(spcToken)
+""","""	spcTokens := shareOf(toPay, spr)
+"""),
+ ("x/storage/keeper/msg_server_buy_storage.go","""	polCut := toPay.Amount.ToDec().Mul(pol) // 40,35,30% to pol
+	polToken := sdk.NewCoin(toPay.Denom, polCut.TruncateInt())
+	polTokens := sdk.NewCoins(polToken)
+""","""	polTokens := shareOf(toPay, pol) // 40,35,30% to pol
+"""),
+ ("x/storage/keeper/msg_server_buy_storage.go","""	refCut := toPay.Amount.ToDec().Mul(refDec) // 25% to referrals
+	refToken := sdk.NewCoin(toPay.Denom, refCut.TruncateInt())
+	refTokens := sdk.NewCoins(refToken)
+""","""	refTokens := shareOf(toPay, refDec) // 25% to referrals
+"""),
+ ("x/storage/keeper/msg_server_buy_storage.go","func (k msgServer) BuyStorage(","""func shareOf(payment sdk.Coin, ratio sdk.Dec) sdk.Coins {
+	return sdk.NewCoins(sdk.NewCoin(payment.Denom, payment.Amount.ToDec().Mul(ratio).TruncateInt()))
+}
+
+func (k msgServer) BuyStorage("""),
+])
+benign("C04","ratio-computed-before-debit",[
+ ("x/storage/keeper/msg_server_buy_storage.go","""	refDec := sdk.NewDec(params.ReferralCommission).QuoInt64(100)
+	fmt.Printf("RATIOS!""","""	fmt.Printf("RATIOS!"""),
+ ("x/storage/keeper/msg_server_buy_storage.go","""	pol := sdk.NewDec(params.PolRatio).QuoInt64(100)
+""","""	pol := sdk.NewDec(params.PolRatio).QuoInt64(100)
+	refDec := sdk.NewDec(params.ReferralCommission).QuoInt64(100)
+"""),
+])
+benign("C17","contains-hoists-key",[
+ ("x/storage/types/file.go","""	for _, proof := range f.Proofs {
+		if proof == string(ProofKey(prover, f.Merkle, f.Owner, f.Start)) {
+			return true
+		}
+	}
+	return false""","""	wanted := f.MakeProofKey(prover)
+	for _, proof := range f.Proofs {
+		if proof == wanted {
+			return true
+		}
+	}
+	return false"""),
+])
+benign("C17","addprover-called-with-msg-creator",[
+ ("x/storage/keeper/msg_server_postproof.go","if file.AddProver(ctx, k, prover) == nil {","if file.AddProver(ctx, k, msg.Creator) == nil {"),
+])
+benign("C09","consume-bid-helper",[
+ ("x/rns/keeper/msg_server_accept_bid.go","""	k.RemoveBids(ctx, fmt.Sprintf("%s%s", bidder, name))
+
+	whois.Value = bid.Bidder""","""	k.consumeBid(ctx, bidder, name)
+
+	whois.Value = bid.Bidder"""),
+ ("x/rns/keeper/msg_server_accept_bid.go","func (k Keeper) AcceptOneBid(","""func (k Keeper) consumeBid(ctx sdk.Context, bidder string, name string) {
+	k.RemoveBids(ctx, fmt.Sprintf("%s%s", bidder, name))
+}
+
+func (k Keeper) AcceptOneBid("""),
+])
+benign("C03","burn-loads-through-helper",[
+ ("x/storage/keeper/rewards.go","""	prov, found := k.GetProviders(ctx, providerAddress)
+	if !found {
+		return
+	}
+
+	burned, err""","""	prov, found := k.providerRecord(ctx, providerAddress)
+	if !found {
+		return
+	}
+
+	burned, err"""),
+ ("x/storage/keeper/rewards.go","func (k Keeper) burnContract(","""func (k Keeper) providerRecord(ctx sdk.Context, address string) (types.Providers, bool) {
+	return k.GetProviders(ctx, address)
+}
+
+func (k Keeper) burnContract("""),
+])
+benign("C08","liveness-as-difference",[
+ ("x/rns/keeper/msg_server_init.go","if bh <= whois.Expires {","if whois.Expires-bh >= 0 {"),
+])
